@@ -239,6 +239,150 @@
             (not st-same) "status differs right after unmarshal"
             (not (same a b)) (string/format "traces differ: %q vs %q pre %q inputs %q" a b pre inputs))))
 
+# ------------------------------------------------------------------ suspended fibers over several generations
+# A marshalable suspended fiber must round-trip at EVERY point of its life, not only once: the copy is resumed and copied
+# again (copy of the copy of the copy ...), and the original is marshalled again after it has moved on.  Both directions
+# matter: unmarshal must not leave image-only bits in the copy (seed C09-8: HASCHILD kept, the next image of the copy
+# promises a child that is not written), and marshal must not leave anything in the original (the frame's HASENV bit was
+# stored in the live frame; a tail call clears frame->env and keeps frame->flags).
+# `make` builds a fresh state deterministically (a fiber, or a tuple [fiber closure closure] marshalled as one unit);
+# a never-marshalled twin gives the reference trace.
+(defn scrub [s] (string (peg/replace-all '(* "0x" (some (range "09" "AF" "af"))) "0x?" (string s))))
+
+(defn mg-step [s [op arg]]
+  (def f (if (fiber? s) s (in s 0)))
+  (if (or (fiber? s) (= op 2))
+    (if (fiber/can-resume? f)
+      (let [r (try (resume f arg) ([e] [:error (scrub e)]))]
+        [(if (= (fiber/status f) :error) (scrub r) r) (fiber/status f)])
+      [:not-resumable (fiber/status f)])
+    (if (= op 0) ((in s 1) arg) ((in s 2)))))
+
+(defn mg-rt [s] (try [true (copy-with-dict s)] ([e] [false (scrub e)])))
+
+(defn multi-gen [name make inputs]
+  (def n (length inputs))
+  (def ref (let [s (make)] (map |(mg-step s $) inputs)))
+  (var bad nil)
+  (defn fail [& xs] (unless bad (set bad (string ;xs (string/format " [inputs %q]" inputs)))))
+  # copy of the copy: the state is replaced by its round trip before the steps listed in `at`
+  (each [mode at] [[:every-step (range n)]
+                   [:first-3 (range (min 3 n))]
+                   [:random (filter (fn [_] (chance 50)) (range n))]
+                   [:late (range (min n (+ 1 (rnd 3))) n)]
+                   [:twice-per-step (range n)]]
+    (unless bad
+      (var s (make))
+      (var gen 0)
+      (def out @[])
+      (for k 0 n
+        (when (and (not bad) (index-of k at))
+          (repeat (if (= mode :twice-per-step) 2 1)
+            (unless bad
+              (def [ok c] (mg-rt s))
+              (++ gen)
+              (if ok
+                (set s c)
+                (fail mode ": generation " gen " (copy of the copy, before step " k "): marshal/unmarshal raised: " c)))))
+        (unless bad (array/push out (mg-step s (in inputs k)))))
+      (unless (or bad (same out ref))
+        (fail mode (string/format ": copies taken before steps %q behave differently: %q vs never-marshalled %q" at out ref)))))
+  # the original is marshalled before every step and goes on itself; every copy is driven over the rest of the script
+  (unless bad
+    (def s (make))
+    (for k 0 n
+      (unless bad
+        (def [ok c] (mg-rt s))
+        (if (not ok)
+          (fail "original-remarshalled: marshal number " (+ k 1) " of the same live fiber (before step " k ") raised: " c)
+          (let [rest (map |(mg-step c $) (array/slice inputs k))]
+            (unless (same rest (array/slice ref k))
+              (fail (string/format "original-remarshalled: copy taken before step %d behaves differently: %q vs %q" k rest (array/slice ref k))))))
+        (def r (mg-step s (in inputs k)))
+        (unless (same r (in ref k))
+          (fail (string/format "original-remarshalled: the original itself behaves differently at step %d after having been marshalled: %q vs %q" k r (in ref k)))))))
+  (report name bad))
+
+# reached by a tail call from a frame that had an on-stack environment; yields, then may tail-call again
+(defn tail-yielder [x n]
+  (var acc x)
+  (def peek (fn [] acc))
+  (for i 0 n (set acc (+ acc (or (yield [:t i (peek)]) 1))))
+  (if (> n 1) (tail-yielder (peek) (- n 2)) [:tail-done acc]))
+
+# the same without any closure of its own: the frame it inherits by the tail call has no environment any more
+(defn tail-plain [x n]
+  (var acc x)
+  (for i 0 n (set acc (+ acc (let [v (yield [:p i acc])] (if (number? v) v 1)))))
+  (if (> n 1) (if (odd? n) (tail-yielder acc (- n 2)) (tail-plain acc (- n 2))) [:plain-done acc]))
+(defn tail-any [x n] (if (odd? n) (tail-plain x n) (tail-yielder x n)))
+
+# non-tail recursion: every frame of the suspended fiber has an on-stack environment; they are detached one by one on the way up
+(defn env-levels [n p]
+  (var loc (+ n p))
+  (def cl (fn [d] (set loc (+ loc d))))
+  (def v (yield [:lvl n (cl 1)]))
+  (def below (if (> n 0) (env-levels (- n 1) (+ p (if (number? v) v 0))) 0))
+  (def w (yield [:up n (cl below)]))
+  (+ loc (if (number? w) w 0)))
+
+# child chains: the child's mask (:e) does not contain yield, so its yields pass through the parent, which is then suspended
+# with a child link; ys gives the number of own yields per level, so the children finish at different generations
+(defn chain-body [depth p ys]
+  (fn []
+    (var acc p)
+    (def bump (fn [d] (set acc (+ acc (if (number? d) d 1)))))
+    (when (> depth 0)
+      (def c (fiber/new (chain-body (- depth 1) (+ p 1) (tuple/slice ys 1)) :e))
+      (bump (resume c))
+      (when (odd? p)
+        (def c2 (fiber/new (chain-body (- depth 1) (+ p 2) (tuple/slice ys 1)) :e))
+        (bump (resume c2 acc))))
+    (for i 0 (get ys 0 1)
+      (bump (yield [:lvl depth i acc])))
+    (if (= 3 (% (math/abs p) 5)) (error (string "boom" acc)) acc)))
+
+(defn mg-make [kind p q ys]
+  (case kind
+    # 0..5: the single-generation bodies
+    6 (fn [] (fiber/new (chain-body 1 p ys) :ye))
+    7 (fn [] (fiber/new (chain-body 2 p ys) :ye))
+    8 (fn [] (fiber/new (chain-body 3 p ys) :ye))
+    # frame with an on-stack env that is tail-called away after the first yield
+    9 (fn [] (fiber/new (fn [] (var x p) (def c (fn [] (set x (+ x 1)))) (def v (yield (c))) (c) (tail-any (+ x (if (number? v) v 0)) (+ 1 q))) :ye))
+    # the same below other frames: the tail call happens in a callee, the caller's env stays
+    10 (fn [] (fiber/new (fn [] (var y q) (def d (fn [] (++ y)))
+                           (def inner (fn [a] (var x a) (def c (fn [] (++ x))) (yield [(c) (d)]) (tail-any x (% q 4))))
+                           (def r (inner p)) (yield [r (d)]) (tail-any y 2)) :ye))
+    11 (fn [] (fiber/new (fn [] (env-levels (% q 4) p)) :ye))
+    # closures handed out of the fiber, marshalled together with it; env on the stack first, detached when the body returns
+    12 (fn [] (def f (fiber/new (fn [] (var x p) (var y (* 2 p))
+                                   (def bump (fn [k] (set x (+ x (if (number? k) k 0))) (set y (- y 1)) [x y]))
+                                   (def peek (fn [] [x y]))
+                                   (yield [bump peek])
+                                   (for i 0 (+ 1 q) (bump (yield [x y])))
+                                   (if (odd? q) (tail-any x (+ 2 (% (math/abs p) 2))) [:done x y])) :ye))
+         (def [bump peek] (resume f))
+         [f bump peek])
+    # fiber with its own environment table (JANET_FIBER_FLAG_HASENV on the wire), with and without a child
+    13 (fn [] (def f (fiber/new (fn [] (for i 0 (+ 2 q) (setdyn :acc (+ (dyn :acc 0) (let [v (yield [(dyn :acc) (dyn :tag)])] (if (number? v) v 1))))) (dyn :acc)) :ye))
+         (fiber/setenv f @{:tag p}) f)
+    14 (fn [] (def f (fiber/new (fn [] (def c (fiber/new (chain-body 1 p ys) :e)) (setdyn :r (resume c)) (yield (dyn :r)) (yield (dyn :tag)) :end) :ye))
+         (fiber/setenv f @{:tag p}) f)
+    (fn [] (fiber/new (gen-fiber-body kind p q) :yie))))
+
+(defn scenario-generations [round &opt fixed]
+  (def [kind p q ys] (or fixed [(rnd 15) (rand-int) (rnd 6) (tuple (rnd 3) (rnd 4) (rnd 3) (+ 1 (rnd 2)))]))
+  (def make (mg-make kind p q ys))
+  (def closures (= kind 12))
+  (def inputs (seq [_ :range [0 (+ 3 (rnd 8))]] [(if closures (rnd 3) 2) (if (chance 8) :stop (rand-int))]))
+  (multi-gen (string "fiber-generations/kind" kind "/" round) make inputs))
+
+# targeted shapes, run on every seed: child finishes between two generations (depth 1..3), env tail-called away, env detached
+(def generations-fixed
+  [[6 0 1 [1 1]] [6 1 1 [2 1]] [7 0 2 [1 1 1]] [7 2 0 [2 0 2]] [8 0 1 [1 2 1 1]] [8 1 3 [2 1 0 2]]
+   [9 1 0 nil] [9 5 3 nil] [10 2 3 nil] [11 1 3 nil] [12 4 1 nil] [12 3 2 nil] [13 7 1 nil] [14 0 2 [0 2]] [14 3 1 [1 1]]])
+
 # ------------------------------------------------------------------ compiled PEGs
 (def peg-grammars
   [~(capture (some (range "az")))
@@ -427,7 +571,12 @@
 # ------------------------------------------------------------------ main
 (defn guarded [name f r]
   (try (f r) ([e fib] (report (string name "/" r) (string "harness error: " e)))))
+(eachp [i fx] generations-fixed
+  (guarded "fiber-generations" (fn [r] (scenario-generations r fx)) (string "fixed" i)))
 (for r 0 rounds
+  (guarded "fiber-generations" scenario-generations r)
+  (guarded "fiber-generations" scenario-generations (+ r rounds))
+  (guarded "fiber-generations" scenario-generations (+ r rounds rounds))
   (guarded "closures-shared-env" scenario-closures r)
   (guarded "closure-env-on-fiber-stack" scenario-onstack-env r)
   (guarded "closure-env-on-running-fiber" scenario-alive-env r)
